@@ -371,7 +371,7 @@ where
 
 /// the operations applicable to a vector of `n` elements (every index / range incl. one out-of-range value)
 pub fn ops_for(n: usize, thorough: bool, inject: bool) -> Vec<VOp> {
-    let mut v = vec![VOp::Push(41), VOp::PushWith(42), VOp::PushMut(46), VOp::PushMutWith(47), VOp::InsertMut(n / 2, 48), VOp::Rebuild(0), VOp::Rebuild(2), VOp::Pop, VOp::PopIf(true), VOp::PopIf(false), VOp::Clear, VOp::Dedup, VOp::DedupByKey, VOp::ShrinkToFit, VOp::RoundTrip, VOp::Reserve(2), VOp::Reserve(9), VOp::ReserveExact(3)];
+    let mut v = vec![VOp::Push(41), VOp::PushWith(42), VOp::PushMut(46), VOp::PushMutWith(47), VOp::InsertMut(n / 2, 48), VOp::Rebuild(0), VOp::Rebuild(2), VOp::Pop, VOp::PopIf(true), VOp::PopIf(false), VOp::Clear, VOp::Dedup, VOp::DedupByKey, VOp::DedupBy, VOp::ShrinkToFit, VOp::RoundTrip, VOp::Reserve(2), VOp::Reserve(9), VOp::ReserveExact(3)];
     for i in 0..=n + 1 {
         v.push(VOp::Insert(i, 43));
         v.push(VOp::Truncate(i));
@@ -491,6 +491,11 @@ fn explore_vecs_ex(prop: &str, tier_thorough: bool, thorough: bool, depth: usize
     for ci in 0..CFGS.len() {
         for kind in KINDS {
             for zst in [false, true] {
+                // zero-sized elements never touch the arena: the quick differential tier runs them on one upward and one
+                // downward configuration only
+                if zst && !tier_thorough && !inject && ci >= 2 {
+                    continue;
+                }
                 for &init in &inits {
                     let n_first = ops_for(init, thorough, inject).len();
                     for f in 0..n_first {
@@ -609,7 +614,7 @@ fn explore_vecs_ex(prop: &str, tier_thorough: bool, thorough: bool, depth: usize
     let rule = if inject {
         "every history (depth bound) over the state-dependent alphabet of vector operations (all indices / ranges incl. invalid ones, iterator consumption patterns incl. forget and keep_rest) x {BumpVec, MutBumpVec, MutBumpVecRev, FixedBumpVec, BumpBox<[T]>} x {sized, zero-sized} elements x initial lengths x 4 arena configurations; for each history one run per user-callback invocation with a panic injected exactly there (Clone, closures, predicates, Iterator::next), and again with Drop::drop counted as a callback; drop counts of every value ever created are audited after everything is gone; non-trivial = injected runs in which the panic actually fired inside an operation"
     } else {
-        "every history (depth bound) over the state-dependent alphabet of vector operations (all indices / ranges incl. one out-of-range value each) x {BumpVec, MutBumpVec, MutBumpVecRev (mirrored model), FixedBumpVec, BumpBox<[T]>} x {sized, zero-sized} elements x initial lengths x 4 arena configurations (both directions, MIN_ALIGN 1/8/16, 16-byte first chunk so growth crosses chunks), compared with std Vec after every operation (return value, contents, len, panic/no-panic, capacity promises, buffer address); histories are not extended through operations on which model and subject both panic (subject checked unchanged); non-trivial = histories that changed the contents"
+        "every history (depth bound) over the state-dependent alphabet of vector operations (all indices / ranges incl. one out-of-range value each) x {BumpVec, MutBumpVec, MutBumpVecRev (mirrored model), FixedBumpVec, BumpBox<[T]>} x {sized, zero-sized} elements x initial lengths x 4 arena configurations (both directions, MIN_ALIGN 1/8/16, 16-byte first chunk so growth crosses chunks; quick tier: zero-sized elements on the two MIN_ALIGN 1 configurations only), compared with std Vec after every operation (return value, contents, len, panic/no-panic, capacity promises, buffer address); histories are not extended through operations on which model and subject both panic (subject checked unchanged); non-trivial = histories that changed the contents"
     };
     let cov = J::obj()
         .set("states", h)
@@ -712,6 +717,7 @@ pub fn parse_ops(s: &str) -> Option<Vec<VOp>> {
             "Retain" => VOp::Retain(u(0)? as u8),
             "Dedup" => VOp::Dedup,
             "DedupByKey" => VOp::DedupByKey,
+            "DedupBy" => VOp::DedupBy,
             "SplitOff" => VOp::SplitOff(u(0)?, u(1)?),
             "Reserve" => VOp::Reserve(u(0)?),
             "ReserveExact" => VOp::ReserveExact(u(0)?),
